@@ -212,6 +212,23 @@ class SymArray(_np.ndarray):
     def dot(self, o):
         return dot(self, o)
 
+    @staticmethod
+    def _index(key):
+        """an index array built by the facade (np.array([0, 2])) is an object array of python ints: numpy itself
+        would have made it an integer array"""
+        if isinstance(key, _np.ndarray) and key.dtype == object and key.size and \
+                _b.all(type(v) is int for v in key.reshape(-1)):
+            return _np.asarray(key, dtype=object).astype(int)
+        if isinstance(key, tuple):
+            return tuple(SymArray._index(k) for k in key)
+        return key
+
+    def __getitem__(self, key):
+        return _np.ndarray.__getitem__(self, SymArray._index(key))
+
+    def __setitem__(self, key, v):
+        return _np.ndarray.__setitem__(self, SymArray._index(key), v)
+
     def astype(self, t, **k):
         return astype(self, t)
 
